@@ -216,6 +216,51 @@ func minimise(planFile, sig, known, scratch string, workers int) (string, int, i
 		}
 		plan = cands[idx]
 	}
+	// shrink nested op lists ("sub": pauses of a scripted consumer, concurrent
+	// queries, partition faults ...)
+	for {
+		ops, _ := plan["ops"].([]interface{})
+		var cands []map[string]interface{}
+		for oi := range ops {
+			op, _ := ops[oi].(map[string]interface{})
+			sub, _ := op["sub"].([]interface{})
+			for si := len(sub) - 1; si >= 0 && len(sub) > 1; si-- {
+				c := clonePlan(plan)
+				cop := c["ops"].([]interface{})[oi].(map[string]interface{})
+				cs := cop["sub"].([]interface{})
+				cop["sub"] = append(append([]interface{}{}, cs[:si]...), cs[si+1:]...)
+				cands = append(cands, c)
+			}
+			// second level (e.g. the points inserted during one pause)
+			for si := range sub {
+				sop, _ := sub[si].(map[string]interface{})
+				ssub, _ := sop["sub"].([]interface{})
+				for ti := len(ssub) - 1; ti >= 0 && len(ssub) > 1; ti-- {
+					c := clonePlan(plan)
+					csop := c["ops"].([]interface{})[oi].(map[string]interface{})["sub"].([]interface{})[si].(map[string]interface{})
+					css := csop["sub"].([]interface{})
+					csop["sub"] = append(append([]interface{}{}, css[:ti]...), css[ti+1:]...)
+					cands = append(cands, c)
+				}
+			}
+			// string lists (query batteries)
+			strs, _ := op["strs"].([]interface{})
+			if k, _ := op["k"].(string); k == "check" || k == "concurrent" {
+				for si := len(strs) - 1; si >= 0 && len(strs) > 1; si-- {
+					c := clonePlan(plan)
+					cop := c["ops"].([]interface{})[oi].(map[string]interface{})
+					cs := cop["strs"].([]interface{})
+					cop["strs"] = append(append([]interface{}{}, cs[:si]...), cs[si+1:]...)
+					cands = append(cands, c)
+				}
+			}
+		}
+		idx := m.firstReproducing(cands)
+		if idx < 0 {
+			break
+		}
+		plan = cands[idx]
+	}
 	// drop the tape
 	if t, ok := plan["tape"].([]interface{}); ok && len(t) > 0 {
 		c := clonePlan(plan)
